@@ -109,7 +109,42 @@ func fieldRoles() []fieldRole {
 			}
 			return false
 		}},
-		{"server/wal", "Wal", "lastAppendedOffset", "atomic counter stored with the offset of the entry just appended", with(msgField("Offset"), atomicInt64)},
+		{"server/wal", "Wal", "lastAppendedOffset", "atomic counter stored with the offset of the entry just appended (after the segment append)", func(h *H, typ string, f *types.Var, ws []ir.FieldWrite) bool {
+			if !atomicInt64(f.Type()) {
+				return false
+			}
+			segApp := ir.Callee{Pkg: "server/wal", Recv: "ReadWriteSegment", Name: "Append"}
+			for _, w := range ws {
+				if w.Val == nil || w.Kind != "atomic.Store" || !msgField("Offset")(h, w) {
+					continue
+				}
+				after, before := false, false
+				for _, c := range h.P.CallsIn(w.Fn, segApp) {
+					if r, _ := ir.Reach(ir.Search{From: c}, ir.Is(w.Instr)); r {
+						after = true
+					}
+					if r, _ := ir.Reach(ir.Search{From: w.Instr}, ir.Is(c)); r {
+						before = true
+					}
+				}
+				if after && !before {
+					return true
+				}
+			}
+			return false
+		}},
+		{"server/wal", "Wal", "lastSyncedOffset", "atomic counter stored after a segment flush / compared by the sync loop, never stored with an entry's offset", func(h *H, typ string, f *types.Var, ws []ir.FieldWrite) bool {
+			if !atomicInt64(f.Type()) || anyWrite(ws, func(w ir.FieldWrite) bool { return msgField("Offset")(h, w) }) {
+				return false
+			}
+			// stored in a function that flushes a segment
+			for _, w := range ws {
+				if len(h.P.CallsIn(w.Fn, ir.Callee{Pkg: "server/wal", Recv: "ReadWriteSegment", Name: "Flush"})) > 0 {
+					return true
+				}
+			}
+			return false
+		}},
 		{"server/wal", "ReadWriteSegment", "currentFileOffset", "the write position: incremented by the size of the record just written", func(h *H, typ string, f *types.Var, ws []ir.FieldWrite) bool {
 			return anyWrite(ws, func(w ir.FieldWrite) bool {
 				bo, ok := ir.Canon(w.Val).(*ssa.BinOp)
